@@ -58,7 +58,7 @@ def run_long(shard, tier, h, res, known):
     lines = ["", "x:     file format elf64-x86-64", "", "", "Disassembly of section .text:", "", "0000000000400000 <f>:"]
     lines += [fmt_line(f"{0x400000 + 5 * i:x}", *unit[i % 4]) for i in range(n)]
     text = "\n".join(lines) + "\n"
-    problems, cnt = ob.analyse_text(h, h.mop(ob._TRIVIAL_RULE), text, CLAUSES + ("operands",))
+    problems, cnt = ob.analyse_text(h, h.mop(ob._TRIVIAL_RULE), text, CLAUSES)      # operands are C09's subject
     res.evaluations += n
     res.nontrivial += n
     for clause, line, exp, obs in problems[:5]:
